@@ -10,6 +10,8 @@ for name in sorted(os.listdir(os.path.join(HERE, "seeded"))):
         continue
     meta = json.load(open(mp))
     r = res.get(name)
+    if r is None and meta.get("builder_ran"):
+        continue            # annotated by an earlier run
     meta["builder_ran"] = {
         "confirm": "selftest/verify_seeded.sh seeded/%s (fresh scratch worktree of /repo under /tmp, removed afterwards): "
                    "patch applies; pinned suite = 13 failed, 1655 passed (unchanged); demo exits 0 on the clean tree and 1 with the patch" % name,
